@@ -27,7 +27,12 @@ def ensure_deps():
     subprocess.run([env.PY, os.path.join(env.VERIF, "vf", "setup.py")], check=False)
 
 
+FAILFAST = {"on": bool(os.environ.get("VERIF_FAILFAST")), "hit": False}   # mutation sweeps only (tools/automut.py)
+
+
 def run_shard(prop, spec, scratch, timeout):
+    if FAILFAST["on"] and FAILFAST["hit"]:
+        return {"skipped": True, "spec": spec}
     out = os.path.join(scratch, "shard-%s.json" % spec["shard"])
     cmd = [env.PY]
     if spec.get("optimize"):
@@ -51,6 +56,8 @@ def run_shard(prop, spec, scratch, timeout):
         r = json.load(f)
     os.unlink(out)
     r["wall"] = time.time() - t0
+    if r.get("n_violations"):
+        FAILFAST["hit"] = True
     return r
 
 
@@ -58,6 +65,8 @@ def merge(results):
     m = {"counters": Counter(), "sets": {}, "evaluations": 0, "distinct": set(), "samples": [], "distinct_bulk": 0,
          "violations": [], "n_violations": 0, "viol_keys": Counter(), "notes": [], "failed": []}
     for r in results:
+        if "skipped" in r:
+            continue
         if "failed" in r:
             m["failed"].append({"shard": r["spec"].get("shard"), "why": r["failed"]})
             continue
